@@ -13,8 +13,13 @@ import (
 // locksReleased: no function of the packages examined returns while it still holds a mutex it locked itself, unless an unlock
 // of that mutex was deferred on the way.  A lock leaked on one exit (typically an early return) blocks every later user of the
 // connection / response forever: operations never terminate and their goroutines never end.
-func locksReleased(c *Ctx, pkgs ...string) {
-	c.R.Rule("locks-released", "in the runtime packages no function returns with a sync.Mutex/RWMutex it locked still held (no explicit unlock on that path and no deferred unlock registered before the return)", 10)
+func locksReleased(c *Ctx, pkgs ...string) { locksReleasedNamed(c, "locks-released", 10, pkgs...) }
+
+// locksReleasedIn: the same rule over further packages (the tracing extensions), under a name of its own.
+func locksReleasedIn(c *Ctx, rule string, pkgs ...string) { locksReleasedNamed(c, rule, 3, pkgs...) }
+
+func locksReleasedNamed(c *Ctx, rule string, floor int, pkgs ...string) {
+	c.R.Rule(rule, "in "+strings.Join(shortPkgs(pkgs), ", ")+": no function returns with a sync.Mutex/RWMutex it locked still held (no explicit unlock on that path and no deferred unlock registered before the return)", floor)
 	in := func(p string) bool {
 		for _, q := range pkgs {
 			if p == q {
@@ -87,8 +92,8 @@ func locksReleased(c *Ctx, pkgs ...string) {
 		n++
 		c.R.OK(shortFn(topFn(fn))+"/lock-balance", c.pos(fn.Pos()), "every return examined")
 	}
-	if n < 10 {
-		c.R.Fail("locks-released examined only %d locking functions/returns", n)
+	if n < floor {
+		c.R.Fail("%s examined only %d locking functions/returns", rule, n)
 	}
 }
 
